@@ -95,6 +95,12 @@ CHECKS["C06"] = ("exploration",
     "Notations with a competing reading by the library's own patterns are listed in the evidence assumptions and not asserted.",
     "DESIGN.md 4 (C06)")
 
+CHECKS["C07"] = ("exploration",
+    "Enumeration of all 24x24 hour pairs x minute variants x joiners x anchors (thorough) and Hypothesis sampling of date pairs / clock ranges (quick) against a reference model of the wrap rule; strict tier for explicit clock notation, candidate tier for bare digits; all before/after alternatives enumerated",
+    "Reference-model oracle for range ends (12h / next-day wrap, never inverted, never longer than 24 h) and half-open before/after intervals; the finite hour-pair domain is enumerated completely in the thorough tier; every candidate interval with dated ends is also checked for order.",
+    "Month-name date ranges fail under the default beam (recorded known finding, matched by notation, depth and failed clause) and are asserted with max_stack_depth=0 instead.",
+    "DESIGN.md 4 (C07)")
+
 NOT_YET = "check not built yet in this round (see DESIGN.md section 4 for the planned generated-input check)"
 
 
